@@ -143,6 +143,25 @@ def check_text(text, ctx, cls):
                         if p:
                             bad = 'error %s (%s): %s' % (a, type(err).__name__, p)
                     ctx.stat('error_marks_checked')
+        if not bad and terr is None and len(text) < 400:
+            # the token interface is get_token() as well as check/peek + get: a consumer that only ever calls get_token()
+            # must be handed the same tokens in the same order
+            try:
+                ld = L(text)
+                drained = []
+                while True:
+                    t = ld.get_token()
+                    if t is None:
+                        break
+                    drained.append((type(t).__name__, t.start_mark.index, t.end_mark.index))
+                    if isinstance(t, yaml.StreamEndToken) or len(drained) > len(toks) + 5:
+                        break
+                ld.dispose()
+                ctx.stat('get_token_drains')
+                if drained != [(type(t).__name__, t.start_mark.index, t.end_mark.index) for t in toks]:
+                    bad = 'tokens handed out by get_token() alone differ from the tokens of scan(): %r' % (drained[:12],)
+            except yaml.YAMLError as e:
+                bad = 'get_token() alone raises %s on an input that scan() accepts' % type(e).__name__
         if not bad and terr is None:
             kinds = [type(t).__name__ for t in toks]
             if kinds.count('StreamStartToken') != 1 or kinds[0] != 'StreamStartToken' or kinds.count('StreamEndToken') != 1 or kinds[-1] != 'StreamEndToken':
@@ -409,6 +428,40 @@ def gen_input(r):
     return t, cls
 
 
+def reader_positions(ctx):
+    """The position carried by a ReaderError is the true offset of the offending character / byte, wherever it lies relative to
+    the reader's refills and however the input is delivered."""
+    import io
+    for off in (0, 7, 4095, 4096, 4097, 8190, 8191, 8192, 8193, 9011, 12287, 12288, 12289, 20001, 40000):
+        for body in ('k: v\n', 'w' * 97 + '\n', '# ' + 'c' * 300 + '\n', 'x'):
+            pad = (body * (off // len(body) + 1))[:off]
+            for bad_ch, label in (('\x07', 'bell'), ('\x00', 'nul'), (chr(0xffff), 'nonchar')):
+                text = pad + bad_ch + '\ntail: 1\n'
+                raw = text.encode('utf-8')
+                boff = len(pad.encode('utf-8'))
+                for form, src, want in (('str', text, off), ('bytes', raw, off), ('text_stream', io.StringIO(text), off), ('byte_stream', io.BytesIO(raw), off)):
+                    for bname, L in (('py', yaml.Loader),) + ((('c', yaml.CLoader),) if yamlapi.HAVE_C else ()):
+                        if bname == 'c' and form in ('text_stream',) and False:
+                            continue
+                        if form.endswith('stream'):
+                            src = io.StringIO(text) if form == 'text_stream' else io.BytesIO(raw)
+                        try:
+                            for _ in yaml.scan(src, Loader=L):
+                                pass
+                            got = None
+                        except yaml.reader.ReaderError as e:
+                            got = e.position
+                        except yaml.YAMLError as e:
+                            got = 'other:' + type(e).__name__
+                        ctx.stat('reader_position_checks')
+                        ctx.case(core.h64('rpos', off, body[:3], label, form, bname), True, ['reader_position'])
+                        if bname == 'py' and got != want:
+                            ctx.violation({'reader_position': off, 'form': form, 'char': label, 'body': body[:8]},
+                                          {'what': 'ReaderError.position is not the offset of the offending character', 'position': got, 'true_offset': want, 'backend': bname}, None)
+                        elif bname == 'c' and got is None:
+                            ctx.violation({'reader_position': off, 'form': form, 'char': label, 'body': body[:8]}, {'what': 'non-printable character accepted', 'backend': bname}, None)
+
+
 def run(spec, ctx):
     k = spec['kind']
     if k in ('inputs', 'exh'):
@@ -420,6 +473,8 @@ def run(spec, ctx):
             for text, label in boundary.simple_key_docs():
                 check_text(text, ctx, 'limit:' + label.split(':')[0])
                 check_text(text.replace('k', chr(0xe9), 3).replace('\n', '\r\n'), ctx, 'limit:' + label.split(':')[0])
+        if spec['shard'] == 1:
+            reader_positions(ctx)
         for i in range(spec['n']):
             text, cls = gen_input(r)
             if i < 3:
@@ -455,6 +510,9 @@ def run(spec, ctx):
 
 
 def replay(case, ctx):
+    if 'reader_position' in case:
+        reader_positions(ctx)
+        return
     if 'tokens' in case:
         ctx.case(core.h64(repr(case)), True)
         stub_case(case['tokens'], ctx)
